@@ -217,6 +217,26 @@ def check(fx, rep, tier):
             wraps = any(n.get("k") == "Call" and (F.path_def(n["f"]) or "").startswith(wrapper) for n, _ in F.walk(db["hir"]["value"])) or any(
                 n.get("k") == "Path" and (n.get("ctor_of") or n.get("def") or "").startswith(wrapper) and str(n.get("defkind", "")).startswith("Ctor") for n, _ in F.walk(db["hir"]["value"])
             )
+            # the text is deserialised into an owned string (or Cow): `&str` only works for inputs that can lend a
+            # borrowed, escape-free slice (from_str / from_slice) and fails for from_reader / from_value / escaped text
+            # (resolved callee: `..::<impl Deserialize<'_> for std::string::String>::deserialize::<D>`; the result type of
+            # the call says which text type is produced)
+            de_calls = [c for c, _ in F.calls(db["hir"]["value"]) if (F.callee_def(c) or "").endswith("Deserialize::deserialize")]
+            de_impls = []
+            for c in de_calls:
+                ty = (c.get("ty") or "")
+                inner = ty[len("std::result::Result<"):] if ty.startswith("std::result::Result<") else ty
+                de_impls.append(inner.split(", <")[0].strip())
+            borrowed = [t for t in de_impls if t.startswith("&")]
+            owned = [t for t in de_impls if t.startswith("std::string::String") or t.startswith("std::borrow::Cow<")]
+            rep.oblige(
+                bool(owned) and not borrowed,
+                "R20.2",
+                "reader-owned-text",
+                w,
+                f"the index reader deserialises its text as {de_impls or 'an unrecognised type'}: a borrowed `&str` cannot be produced by readers, `Value`s or escaped strings, so a layout saved to a file does not read back",
+                sample={"rule": "R20.2", "text_type": de_impls},
+            )
             ok = parse256 and not narrow and not mangling and not casts and wraps
             rep.oblige(
                 ok,
